@@ -2,7 +2,8 @@ SPEC = {
     "id": "C21",
     "level": "proof",
     "lean_modules": ["PallasVerif.Props.C21"],
-    "required_theorems": ["reassembly_network1", "reassembly_network2", "recvFullMsg_spec", "drain_spec", "unsupported_channel",
+    "required_theorems": ["reassembly_network1", "reassembly_network1_progress", "recv_after_all_blocks", "skipping_loop_stalls",
+                          "reassembly_network2", "recvFullMsg_spec", "drain_spec", "unsupported_channel",
                           "good_keepalive", "reassembly_network1_keepalive", "reassembly_network2_keepalive",
                           "good_blockfetch", "reassembly_network1_blockfetch", "reassembly_network2_blockfetch",
                           "good_chainsync", "reassembly_network1_chainsync", "reassembly_network2_chainsync",
@@ -14,7 +15,10 @@ SPEC = {
             "payload sizes 0..70000 so that messages span several 65535-byte segments) and several ops replaying its concatenated encoding "
             "under different splits: every split point (streams <= 64 bytes: all 2-way splits over the ops of successive cases), 1-byte "
             "segments, random split sets, empty chunks, one chunk; n1 = network1 ChannelBuffer::recv_full_msg behind a real plexer pair, "
-            "n2 = network2 read_full_msgs (random direction bit, other channels interleaved). 1 in 8 ops is malformed (an ill-formed byte "
+            "n2 = network2 read_full_msgs (random direction bit, other channels interleaved). 2 cases in 80 are big boundary cases: block-fetch streams whose last or "
+            "middle message ends exactly at k x 65535 bytes (k = 1, 2), one byte before or after, cut into 65535-byte segments as "
+            "send_msg_chunks / into_chunks do, for both stacks; a recv that is still pending after everything sent has been demuxed is "
+            "reported as a stall. 1 in 8 ops is malformed (an ill-formed byte "
             "0xff / 0x1c injected at a message boundary, or the stream truncated). keep-alive, block-fetch and chain-sync-header cases additionally carry kenc/kdec, bfenc/bfdec and csenc/csdec "
             "ops (the codec models against the real decoders of both stacks on valid, truncated, extended, every head width, "
             "indefinite strings, other tags, wrong types and random bytes). distinct = sha1 of op text; non-trivial = the case "
